@@ -1,10 +1,11 @@
 SPECIFICATION Spec
-CONSTANTS Versions = {1, 2}
-  MaxSteps = 3
+CONSTANTS Versions = {1}
+  MaxSteps = 4
   ReAddOnRemove = TRUE
   CachePerFile = FALSE
-  WithRemoval = FALSE
+  WithRemoval = TRUE
   OnlyRotations = FALSE
-  Serialized = TRUE
+  Serialized = FALSE
 INVARIANTS Converges ServedIsValidVersion
+PROPERTIES KeepsLastGood
 CHECK_DEADLOCK FALSE
